@@ -87,3 +87,23 @@ PROPS["C02"] = {
     "quick": [rapid("root", "^TestPropRoundTrip$", 1500, shards=3), rapid("unpriv", "^TestPropRoundTrip$", 1200, shards=1, uid=65534)],
     "thorough": [rapid("root", "^TestPropRoundTrip$", 12000, shards=10), rapid("unpriv", "^TestPropRoundTrip$", 12000, shards=4, uid=65534)],
 }
+
+PROPS["C15"] = {
+    "pkg": "c15",
+    "level": "exploration",
+    "rule": ("Exhaustive: every entry sequence of length<=3 over a 16-variant alphabet (files incl. read-only and mode 0000, dirs 0755/0555/"
+             "0700/0500, in-dst links, leading '/' and './', PAX extended and global headers, a hard link; USTAR/PAX/GNU) as root and as uid "
+             "65534; rapid: sequences of 1-12 entries over 9 paths (incl. a 230-byte PAX name) and Pack-shaped archives. Oracle: a reference "
+             "sequential interpreter written from the property text gives the expected tree (paths exactly, type, content, Perm bits, mtime "
+             "of files and explicit dirs - ns for PAX, seconds otherwise - link targets); unrepresentable types must make Unpack fail; "
+             "sequences the property does not fix (type change at a path, link over an existing path, entry below a link/file, link with "
+             "absolute name) may error but must match the model if they succeed. Non-trivial = duplicate path, child before parent dir, "
+             "read-only file, restrictive dir mode, PAX header, leading '/' or './', unrepresentable type; distinct by case hash."),
+    "assumptions": ["implicit parent directories' mode/mtime are unspecified", "special mode bits are not compared", "unprivileged: a directory without owner r-x may legitimately make Unpack fail"],
+    "quick": [plain("exh-root", "^TestExhaustive$", shards=3, env={"VERIF_C15_MAXLEN": 3}),
+              plain("exh-unpriv", "^TestExhaustive$", shards=3, uid=65534, env={"VERIF_C15_MAXLEN": 3}),
+              rapid("rapid-root", "^TestProp", 2000, shards=2), rapid("rapid-unpriv", "^TestProp", 1500, shards=1, uid=65534)],
+    "thorough": [plain("exh-root", "^TestExhaustive$", shards=6, env={"VERIF_C15_MAXLEN": 4}),
+                 plain("exh-unpriv", "^TestExhaustive$", shards=6, uid=65534, env={"VERIF_C15_MAXLEN": 4}),
+                 rapid("rapid-root", "^TestProp", 15000, shards=8), rapid("rapid-unpriv", "^TestProp", 15000, shards=4, uid=65534)],
+}
